@@ -232,4 +232,18 @@ CLAIMS = {
         'note': 'Trusted: clang 14 CFG, tools/grfacts, rules/c06.py, rules/vm.py.  Everything about which rule matches where is out of reach of this family.',
         'technique': 'abstract evaluation over order types (comparison-only function) + structural / call-set purity rules',
     },
+    'C01': {
+        'text': 'General memory safety of the table parsers on arbitrary bytes is NOT decided (they are safe partly by arithmetic that no check '
+                'states).  Decided, as necessary conditions, narrowly: a frozen, hand-confirmed inventory of every load-time rejection in the 44 '
+                'parser functions (249 passing-direction facts with multiplicity, tables/validators.json) is re-evaluated on the current CFGs with '
+                'strength comparison, so a removed or weakened check (>= to >, a smaller constant, a dropped disjunct) is reported with the '
+                'fact the parser used to rely on; the per-opcode operand validations of the bytecode loader (68, the class-id / user-attribute / '
+                'slot-reference ones being load-bearing for run-time sinks); no failure result is dropped (121 Error::test and load-status call '
+                'sites); the decoder recursion is cut by the nested-context rejection and Code::failure invalidates the code; constant coherence '
+                '(NUMCONTEXTS, attrid extent, gralloc overflow test); and the shared ownership / borrow rules for the failed-load exits (C16).',
+        'note': 'Trusted: clang 14 CFG, tools/grfacts, rules/validators.py, rules/opchecks.py, rules/c01.py, rules/dom.py, and the two frozen tables, '
+                'which are regenerated only after reading the diff.  A renamed operand is exit 2 (re-confirm), never a pass.  Parser loop termination '
+                'and arithmetic overflow in size expressions are not decided.',
+        'technique': 'frozen inventory of dominating rejections with strength comparison + def-use rule on failure results + CFG guard rules',
+    },
 }
